@@ -89,7 +89,7 @@ func runSimCheck(spec *simCheckSpec, args []string) int {
 			"states": res.States, "transitions": res.Transitions, "max_depth": res.MaxDepth,
 			"exhaustive": res.Exhaustive, "cap": res.Capped, "reached": reached, "not_reached": vacuous,
 			"replay_hash_mismatches": res.Mismatches, "maporder_steps_repeated": res.OrderSteps, "maporder_extra_outcomes": res.OrderAlts, "worker_deaths": res.WorkerDeaths, "wall_s": res.Wall,
-			"terminal_states": res.Outcomes["terminal"],
+			"terminal_states": res.Outcomes["terminal"], "crash_images": res.CrashImages, "crash_points": res.CrashPoints,
 		})
 		for _, s := range res.Samples {
 			if len(samples) < 8 {
